@@ -48,6 +48,7 @@ MAP = [
     ('a re-elected leader restarts snapshot transfers', ['C09']),
     ('a snapshot child still running', ['C06', 'C09']),
     ('a removed member no longer counts as connected', ['C20', 'C07']),
+    ('a lock whose release request was lost', ['C16']),
 ]
 
 
